@@ -40,17 +40,18 @@ type rtCase struct {
 	DecCons    []int // consumer of Decrypt's stream
 
 	// liberties the reference encoder takes in direction (d)
-	RefOrder   []string
-	RefSolidus bool
-	RefUnicode bool
-	RefOmitK   bool
-	RefCipher  int
+	RefOrder    []string
+	RefSolidus  bool
+	RefUnicode  bool
+	RefOmitK    bool
+	RefEmptySeg bool // the independent encoder writes an empty message as one empty last segment (allowed by the README)
+	RefCipher   int
 }
 
 func (c rtCase) String() string {
-	return fmt.Sprintf("c01{len=%d seed=%d cipherOpt=%d alg=%s realWrap=%v scrub=%v retain=%v rsa=%d keyName=%q decName=%q omit=%v override=%q src=%v srcEOFWith=%v encCons=%v ctSrc=%v ctEOFWith=%v decCons=%v ref{order=%v solidus=%v unicode=%v omitK=%v cipher=%d}}",
+	return fmt.Sprintf("c01{len=%d seed=%d cipherOpt=%d alg=%s realWrap=%v scrub=%v retain=%v rsa=%d keyName=%q decName=%q omit=%v override=%q src=%v srcEOFWith=%v encCons=%v ctSrc=%v ctEOFWith=%v decCons=%v ref{order=%v solidus=%v unicode=%v omitK=%v emptyAsSegment=%v cipher=%d}}",
 		c.Len, c.Seed, c.CipherOpt, c.Alg, c.RealWrap, c.Scrub, c.Retain, c.RSA, c.KeyName, c.DecName, c.Omit, c.Override, c.Src, c.SrcEOFWith, c.EncCons, c.CtSrc, c.CtEOFWith, c.DecCons,
-		c.RefOrder, c.RefSolidus, c.RefUnicode, c.RefOmitK, c.RefCipher)
+		c.RefOrder, c.RefSolidus, c.RefUnicode, c.RefOmitK, c.RefEmptySeg, c.RefCipher)
 }
 
 func (c rtCase) chunkingDefault() bool {
@@ -214,7 +215,7 @@ func checkCase(c rtCase) (what, detail string) {
 		return "harness", fmt.Sprintf("vault could not wrap the reference file key: %v", err)
 	}
 	m.WFK = wfk
-	refDoc := refenc.Encode(p, refFK, m, refenc.ManifestStyle{Order: c.RefOrder, EscapeSolidus: c.RefSolidus, EscapeUnicode: c.RefUnicode})
+	refDoc := refenc.Encode(p, refFK, m, refenc.ManifestStyle{Order: c.RefOrder, EscapeSolidus: c.RefSolidus, EscapeUnicode: c.RefUnicode, EmptyAsSegment: c.RefEmptySeg})
 	decNameD := c.Override
 	if decNameD == "" && m.HasKeyName {
 		decNameD = m.KeyName
@@ -356,6 +357,7 @@ func genCase(rt *rapid.T) rtCase {
 	c.RefSolidus = rapid.Bool().Draw(rt, "refSolidus")
 	c.RefUnicode = rapid.Bool().Draw(rt, "refUnicode")
 	c.RefOmitK = rapid.IntRange(0, 3).Draw(rt, "refOmitK") == 0
+	c.RefEmptySeg = rapid.Bool().Draw(rt, "refEmptySeg")
 	c.RefCipher = rapid.IntRange(1, 2).Draw(rt, "refCipher")
 	return c
 }
@@ -414,7 +416,7 @@ func TestBoundarySweep(t *testing.T) {
 						}
 						c := rtCase{Len: L, Seed: uint64(idx) * 0x9e3779b97f4a7c15, CipherOpt: cipherOpt, Alg: allAlgs[idx%len(allAlgs)], RealWrap: idx%2 == 0, Scrub: idx%5 == 0, Retain: idx%3 == 0, RSA: idx % 2,
 							KeyName: keyNames[idx%len(keyNames)], Src: ss, SrcEOFWith: eofWith, EncCons: cons, CtSrc: srcStyles[(si+ci+1)%len(srcStyles)], CtEOFWith: idx%4 < 2, DecCons: decCons,
-							RefOrder: [][]string{nil, {"np", "cph", "wfk", "kw", "k"}}[idx%2], RefSolidus: idx%3 == 0, RefUnicode: idx%5 == 0, RefCipher: 1 + idx%2}
+							RefOrder: [][]string{nil, {"np", "cph", "wfk", "kw", "k"}}[idx%2], RefSolidus: idx%3 == 0, RefUnicode: idx%5 == 0, RefEmptySeg: idx%2 == 1, RefCipher: 1 + idx%2}
 						if c.CtSrc != nil && len(c.CtSrc) == 2 && c.CtSrc[0] == refenc.SegmentSize-1 {
 							c.CtSrc = []int{refenc.SealedSize} // the ciphertext analogue: exactly one sealed segment per read
 						}
@@ -457,7 +459,7 @@ func TestOptionSweep(t *testing.T) {
 							continue
 						}
 						c := rtCase{Len: []int{0, 11, 3000}[idx%3], Seed: uint64(idx)*0x2545f4914f6cdd1d + 1, CipherOpt: cipherOpt, Alg: alg, RealWrap: real, RSA: idx % 2,
-							KeyName: keyNames[idx%len(keyNames)], RefOmitK: refOmit, RefCipher: 1 + (idx/2)%2, RefSolidus: idx%2 == 0, RefUnicode: idx%3 == 0}
+							KeyName: keyNames[idx%len(keyNames)], RefOmitK: refOmit, RefCipher: 1 + (idx/2)%2, RefSolidus: idx%2 == 0, RefUnicode: idx%3 == 0, RefEmptySeg: idx%4 < 2}
 						if combo&1 != 0 {
 							c.DecName = keyNames[(idx+3)%len(keyNames)] + "#dec"
 						}
